@@ -980,3 +980,29 @@ def statics(tier, seed):
         main = [spawn(t) for t in range(2, n + 2)] + ths[0] + [join(t) for t in range(2, n + 2)]
         progs.append(P(f"rand{k}", main, *ths[1:]))
     return [normalize(p) for p in progs]
+
+
+def future_shapes():
+    out = []
+    A = out.append
+    BO = lambda k, ordr="acq": I("blockon", "w", o2="f", k=k, ord=ordr)
+    WK = I("wake", "w")
+    for k in ("reg-check", "check-reg"):
+        A(P(f"wake-1[{k}]", [spawn(2), BO(k), join(2)], [st("f", 1, "rel"), WK]))
+        A(P(f"wake-1-rlx[{k}]", [spawn(2), BO(k, "rlx"), join(2)], [st("f", 1, "rlx"), WK]))
+        A(P(f"wake-twice[{k}]", [spawn(2), BO(k), join(2)], [st("f", 1, "rel"), WK, WK]))
+        A(P(f"wake-before-flag[{k}]", [spawn(2), BO(k), join(2)], [WK, st("f", 1, "rel"), WK]))
+        A(P(f"two-wakers[{k}]", [spawn(2), spawn(3), BO(k), join(2), join(3)], [st("f", 1, "rel"), WK], [WK]))
+        A(P(f"two-setters[{k}]", [spawn(2), spawn(3), BO(k), join(2), join(3)], [st("f", 1, "rel"), WK], [st("f", 2, "rel"), WK]))
+        A(P(f"never-woken[{k}]", [spawn(2), BO(k), join(2)], [ld("x")]))
+        A(P(f"flag-no-wake[{k}]", [spawn(2), BO(k), join(2)], [st("f", 1, "rel")]))
+        A(P(f"wake-no-flag[{k}]", [spawn(2), BO(k), join(2)], [WK]))
+        A(P(f"blockon-in-thread[{k}]", [spawn(2), st("f", 1, "rel"), WK, join(2)], [BO(k)]))
+        A(P(f"handover[{k}]", [spawn(2), BO(k), rd("c"), join(2)], [wr("c"), st("f", 1, "rel"), WK]))
+        A(P(f"already-ready[{k}]", [st("f", 1), BO(k)]))
+        A(P(f"two-blockons[{k}]", [spawn(2), BO(k), BO(k), join(2)], [st("f", 1, "rel"), WK]))
+    return out
+
+
+def futures_family(tier, seed):
+    return [normalize(p) for p in future_shapes()]
